@@ -613,15 +613,23 @@ theorem sniff16_le (c : Cur F) (lst : List Nat) (pos : Nat) :
       · rename_i heq; simp only [List.cons.injEq] at heq; exact absurd heq.1 hy
       · rfl
 
+/-- the replay hypothesis of `ConvertingWithPendingBB`, for the single byte that is ever pending there:
+a `Malformed` answer to the replay of `BB` consumed it -/
+def ReplayBB (k : Sink) (c : Cur F) : Prop :=
+  ∀ b1 l a, (c.call k [0xBB] false b1).res = .malformed l a → (c.call k [0xBB] false b1).read = 1
+
+theorem ReplayOk.replayBB {k : Sink} {c : Cur F} (h : ReplayOk k c) : ReplayBB k c := h.one 0xBB
+
 /-- **Soundness of every `Decoder` call against the documented BOM semantics** (`dref`):
 whatever the life-cycle state, however the potential BOM is split across calls,
 whatever the stop policies of the inner calls — unless the Rust panics
 (finished decoder; replay into a buffer below the documented minimum). -/
-theorem rawCall_sound' (k : Sink) (L : Laws F)
+theorem rawCall_sound'' (k : Sink) (L : Laws F)
     (halt : ∀ s src m r, F.alt s src = some (m, r) → m ≤ src.length)
     (d : Decoder F) (src rest : List Nat) (pos : Nat) (last : Bool) (b1 b2 : Budget)
     (hl : last = true → rest = []) (hw : withheld d.life ≤ pos)
-    (hr : 0 < withheld d.life → ReplayOk k d.cur) :
+    (hr : 0 < withheld d.life → d.life ≠ .convertingWithPendingBB → ReplayOk k d.cur)
+    (hbb : d.life = .convertingWithPendingBB → ReplayBB k d.cur) :
     DSound src rest pos (dref d (src ++ rest) pos) (d.rawCall k src last b1 b2) := by
   obtain ⟨life, c⟩ := d
   cases life
@@ -630,9 +638,8 @@ theorem rawCall_sound' (k : Sink) (L : Laws F)
     exact checkingEnd_sound0 k L c src rest pos last b2 hl
   case finished => unfold Decoder.rawCall; simp only []; trivial
   case convertingWithPendingBB =>
-    have hr : ReplayOk k c := hr (by simp [withheld])
     unfold Decoder.rawCall; simp only [dref]
-    exact afterOne_sound k L c src rest pos last 0xBB b1 b2 hl (by simpa [withheld] using hw) (hr.one 0xBB b1)
+    exact afterOne_sound k L c src rest pos last 0xBB b1 b2 hl (by simpa [withheld] using hw) (hbb rfl b1)
   case atStart =>
     unfold Decoder.rawCall; simp only
     split
@@ -730,7 +737,7 @@ theorem rawCall_sound' (k : Sink) (L : Laws F)
           · rfl
       rw [e]; exact this
   case seenUtf8First =>
-    have hr : ReplayOk k c := hr (by simp [withheld])
+    have hr : ReplayOk k c := hr (by simp [withheld]) (by simp)
     have hpos : 1 ≤ pos := by simpa [withheld] using hw
     unfold Decoder.rawCall; simp only
     split
@@ -760,7 +767,7 @@ theorem rawCall_sound' (k : Sink) (L : Laws F)
           · rfl
       rw [e]; exact this
   case seenUtf8Second =>
-    have hr : ReplayOk k c := hr (by simp [withheld])
+    have hr : ReplayOk k c := hr (by simp [withheld]) (by simp)
     have hpos : 2 ≤ pos := by simpa [withheld] using hw
     unfold Decoder.rawCall; simp only
     split
@@ -789,7 +796,7 @@ theorem rawCall_sound' (k : Sink) (L : Laws F)
           · rfl
       rw [e]; exact this
   case seenUtf16BeFirst =>
-    have hr : ReplayOk k c := hr (by simp [withheld])
+    have hr : ReplayOk k c := hr (by simp [withheld]) (by simp)
     have hpos : 1 ≤ pos := by simpa [withheld] using hw
     unfold Decoder.rawCall; simp only
     split
@@ -818,7 +825,7 @@ theorem rawCall_sound' (k : Sink) (L : Laws F)
           · rfl
       rw [e]; exact this
   case seenUtf16LeFirst =>
-    have hr : ReplayOk k c := hr (by simp [withheld])
+    have hr : ReplayOk k c := hr (by simp [withheld]) (by simp)
     have hpos : 1 ≤ pos := by simpa [withheld] using hw
     unfold Decoder.rawCall; simp only
     split
@@ -846,6 +853,17 @@ theorem rawCall_sound' (k : Sink) (L : Laws F)
           · rename_i heq; simp only [List.cons.injEq] at heq; exact absurd (by rw [heq.1]) (h2 t)
           · rfl
       rw [e]; exact this
+
+/-- the same with the replay hypothesis `ReplayOk` (any replayed byte) in every state in which bytes
+are withheld, `ConvertingWithPendingBB` included (`rawCall_sound''` asks only for `ReplayBB` there) -/
+theorem rawCall_sound' (k : Sink) (L : Laws F)
+    (halt : ∀ s src m r, F.alt s src = some (m, r) → m ≤ src.length)
+    (d : Decoder F) (src rest : List Nat) (pos : Nat) (last : Bool) (b1 b2 : Budget)
+    (hl : last = true → rest = []) (hw : withheld d.life ≤ pos)
+    (hr : 0 < withheld d.life → ReplayOk k d.cur) :
+    DSound src rest pos (dref d (src ++ rest) pos) (d.rawCall k src last b1 b2) :=
+  rawCall_sound'' k L halt d src rest pos last b1 b2 hl hw (fun h _ => hr h)
+    (fun h => (hr (by rw [h]; simp [withheld])).replayBB)
 
 /-- the same with the replay hypothesis stated for every state (it is only used in the states in
 which bytes are withheld, see `rawCall_sound'`) -/
